@@ -396,6 +396,8 @@ def _r3_keys(model: Model, run: Run, folder: Folder) -> None:
     for nm, codes in sorted(seen.items()):
         if len(codes) == 1:
             run.ok('key "%s" <- %s' % (nm, codes[0]))
+        elif _merged_by_unpack(model, run, set(codes)) is not None:
+            run.ok('key "%s" <- %s' % (nm, ' / '.join(sorted(codes))), 'AttributeCollection.unpack leaves one of them when both are received (C13.R12)')
         else:
             run.violation(
                 ac.qualname,
@@ -768,6 +770,33 @@ def _lands_in_object(model: Model, f: FuncInfo, call: ast.Call) -> bool:
     return False
 
 
+def _merged_by_unpack(model: Model, run: Run, names: set[str]) -> ast.AST | None:
+    """the call by which AttributeCollection.unpack removes one of the attribute codes `names` when all of them were
+    received (the branch tests the presence of each and removes one, directly or in a method of the collection)"""
+    AC = 'exabgp.bgp.message.update.attribute.collection.AttributeCollection'
+    un = model.func(AC + '.unpack')
+    run.analysed(un)
+    merged = None
+    for st in walk_no_nested(un.node):
+        if not isinstance(st, ast.If):
+            continue
+        tested = {(dotted(c.left) or '').rsplit('.', 1)[-1] for c in ast.walk(st.test) if isinstance(c, ast.Compare) and isinstance(c.ops[0], ast.In)}
+        if not names <= tested:
+            continue
+        # what the branch does: a removal of one of the codes, directly or in a method of the collection it calls
+        bodies = list(st.body)
+        for c in [x for b in st.body for x in walk_no_nested(b) if isinstance(x, ast.Call)]:
+            for q in model.callees(un.module, c):
+                if q.startswith(AC + '.') and q in model.funcs:
+                    run.analysed(model.funcs[q])
+                    bodies += model.funcs[q].node.body
+        for b in bodies:
+            for c in walk_no_nested(b):
+                if isinstance(c, ast.Call) and isinstance(c.func, ast.Attribute) and c.func.attr in ('remove', 'pop', '__delitem__') and c.args and (dotted(c.args[0]) or '').rsplit('.', 1)[-1] in names:
+                    merged = c
+    return merged
+
+
 def _r12_attribute_names(model: Model, run: Run, folder: Folder) -> None:
     AC = 'exabgp.bgp.message.update.attribute.collection.AttributeCollection'
     ci = model.cls(AC)
@@ -803,24 +832,7 @@ def _r12_attribute_names(model: Model, run: Run, folder: Folder) -> None:
             continue
         n += 1
         names = {nm for _, nm in live}
-        merged = None
-        for st in walk_no_nested(un.node):
-            if not isinstance(st, ast.If):
-                continue
-            tested = {(dotted(c.left) or '').rsplit('.', 1)[-1] for c in ast.walk(st.test) if isinstance(c, ast.Compare) and isinstance(c.ops[0], ast.In)}
-            if not names <= tested:
-                continue
-            # what the branch does: a removal of one of the codes, directly or in a method of the collection it calls
-            bodies = list(st.body)
-            for c in [x for b in st.body for x in walk_no_nested(b) if isinstance(x, ast.Call)]:
-                for q in model.callees(un.module, c):
-                    if q.startswith(AC + '.') and q in model.funcs:
-                        run.analysed(model.funcs[q])
-                        bodies += model.funcs[q].node.body
-            for b in bodies:
-                for c in walk_no_nested(b):
-                    if isinstance(c, ast.Call) and isinstance(c.func, ast.Attribute) and c.func.attr in ('remove', 'pop', '__delitem__') and c.args and (dotted(c.args[0]) or '').rsplit('.', 1)[-1] in names:
-                        merged = c
+        merged = _merged_by_unpack(model, run, names)
         run.check(merged is not None, AC, 'attributes %s are both rendered as "%s": %s' % (sorted(names), name, 'unpack leaves one of them' if merged is not None else 'nothing removes one when both are received'), ci.loc(), 'an UPDATE carrying both (what RFC 6793 prescribes through a 2-byte speaker) renders "%s": ..., "%s": ... in one object: a duplicate key, the consumer keeps one of the two values' % (name, name))
     if n == 0:
         run.cannot('no two attribute codes share a name in AttributeCollection.representation any more: rule without an instance')
